@@ -48,6 +48,8 @@ def parse_key(spec, key):
     K = {"MementoFunction": "KM", "Function": "KF", "GlobalVariable": "KV", "UndefinedSymbol": "KU"}[kind]
 
     def nm(s):
+        if "@" in s:                       # an anonymous function is identified by the symbol that names it
+            s = s.split("@")[-1]
         base = s.split(":")[-1].split(".")[-1]
         if base.startswith("al_"):
             base = base.split("_")[-1]
@@ -96,7 +98,7 @@ def run(tier, seed):
     with C.Scratch("c03") as scratch:
         jobs = []
         for pi in range(n_prog + 1):
-            spec = cross_package_spec() if pi == n_prog else vprog.gen_spec(rng, n_m=rng.randint(2, 5), n_p=rng.randint(1, 3), n_v=rng.randint(1, 3), p_hidden=0.08, pkg2=rng.random() < 0.5, outside_helpers=True)
+            spec = cross_package_spec() if pi == n_prog else vprog.gen_spec(rng, n_m=rng.randint(2, 5), n_p=rng.randint(1, 3), n_v=rng.randint(1, 3), p_hidden=0.08, pkg2=rng.random() < 0.5, outside_helpers=True, lambdas=rng.random() < 0.5)
             if any(n.get("sset") for n in spec["nodes"]):
                 stats["with_string_set_constant"] += 1
             ms = vprog.mnames(spec)
